@@ -34,8 +34,8 @@ def params_for(tier, seed):
         serials = [c for c in ALL_CLASSES if c in ("z0", "s1") or c in extra]
         return dict(owners=["A", "B"], serials=serials, bodies=2, max_ops=4, page_sizes=[0, 1, 2],
                     queries="accepted", n_paths=12, path_len=14, chunks=12)
-    return dict(owners=["A", "B"], serials=list(ALL_CLASSES), bodies=2, max_ops=5, page_sizes=[0, 1, 2],
-                queries="accepted", n_paths=150, path_len=28, chunks=16)
+    return dict(owners=["A", "B"], serials=list(ALL_CLASSES), bodies=2, max_ops=5, page_sizes=[0, 1, 2, 3],
+                queries="new", n_paths=150, path_len=28, chunks=16)
 
 
 def tla_set(xs):
